@@ -1635,6 +1635,31 @@ func (x *tr) call(s *state, c *ast.CallExpr) (*loc, *val, string) {
 	if recv != nil {
 		key = x.typeAt(s, *recv).name + "." + name
 	}
+	if recv != nil && name == "mulWindowed" && len(c.Args) == 2 && x.p.cfg.ext == "" && !x.p.cfg.pairing {
+		// `p.mulWindowed(q, &K)` with K a package-level *big.Int (the seed): a PRIMITIVE. The loop over the bits of a big.Int
+		// leaves the subset (hand model + K: C03); the call is modelled as `p := mulWindowed_<T>_<K> q` with
+		// `mulWindowed_<T>_<K> : T → T` a PARAMETER of the def (threaded through the callers like a package variable) whose
+		// specification "represents K • Q" is a hypothesis of the theorems (Props/C02_subgroup*). Assumed, not checked here:
+		// the callee writes only its receiver and the new value is a function of *q alone.
+		if u, ok := c.Args[1].(*ast.UnaryExpr); ok && u.Op == token.AND {
+			if kid, ok := u.X.(*ast.Ident); ok && s.cells[kid.Name] == nil {
+				if _, isPtr := s.ptrs[kid.Name]; !isPtr && x.p.globals[kid.Name] == nil {
+					rt := x.typeAt(s, *recv)
+					ql := x.evalPtr(s, c.Args[0])
+					if !x.typeAt(s, ql).same(rt) {
+						reject("mulWindowed: argument type differs from the receiver type")
+					}
+					gname := "mulWindowed_" + rt.name + "_" + kid.Name
+					if x.p.globals[gname] == nil {
+						x.p.globals[gname] = &global{name: gname, t: &typ{prim: "(" + rt.lean() + " → " + rt.lean() + ")"}, elems: map[int]ast.Expr{}, mutated: true}
+					}
+					x.globalRoot(s, gname)
+					x.def(s, *recv, gname+" "+x.read(get(s.cells[ql.root], ql.path)))
+					return recv, nil, ""
+				}
+			}
+		}
+	}
 	f, owner := x.p.lookupFn(key)
 	return x.callFn(s, f, owner, key, recv, c)
 }
@@ -2137,8 +2162,10 @@ func (x *tr) loopStmt(s *state, st *ast.ForStmt, rs *ast.RangeStmt) {
 	} else {
 		bodyStmt = st.Body
 		var iv string
-		if as, ok := st.Init.(*ast.AssignStmt); ok && as.Tok == token.DEFINE && len(as.Lhs) == 1 && litInt(as.Rhs[0]) != nil && litInt(as.Rhs[0]).Sign() == 0 {
+		start := new(big.Int) // `for i := a; i < b; i++` with literals a ≤ b runs b − a times (addchain emits `for i := 1; i < 2; i++`)
+		if as, ok := st.Init.(*ast.AssignStmt); ok && as.Tok == token.DEFINE && len(as.Lhs) == 1 && litInt(as.Rhs[0]) != nil && litInt(as.Rhs[0]).Sign() >= 0 {
 			iv = as.Lhs[0].(*ast.Ident).Name
+			start = litInt(as.Rhs[0])
 		}
 		cnd, _ := st.Cond.(*ast.BinaryExpr)
 		inc, _ := st.Post.(*ast.IncDecStmt)
@@ -2146,8 +2173,11 @@ func (x *tr) loopStmt(s *state, st *ast.ForStmt, rs *ast.RangeStmt) {
 			reject("unsupported loop header")
 		}
 		if n := litInt(cnd.Y); n != nil {
-			bound = n.String()
-		} else if id, ok := cnd.Y.(*ast.Ident); ok && x.ints[id.Name] {
+			if n.Cmp(start) < 0 {
+				reject("loop bound below the start value")
+			}
+			bound = new(big.Int).Sub(n, start).String()
+		} else if id, ok := cnd.Y.(*ast.Ident); ok && x.ints[id.Name] && start.Sign() == 0 {
 			bound = id.Name
 			x.used[id.Name] = true
 		} else {
